@@ -208,7 +208,7 @@ def digest_of(res):
 def _selftest_job(arg):
     pname, mode, seed, opts = arg
     res = driver._job(arg)
-    return {"seed": seed, "digest": digest_of(res), "cp": (res.get("sched") or {}).get("choice_points", 0)}
+    return {"seed": seed, "digest": digest_of(res), "cp": (res.get("sched") or {}).get("choice_points", 0), "lib_out": res.get("lib_out")}
 
 
 def selftest(prop, workloads, n=32, verif_seed=0):
@@ -225,6 +225,10 @@ def selftest(prop, workloads, n=32, verif_seed=0):
     for x, y in zip(a, b):
         if "harness_error" in x or "harness_error" in y:
             return False, f"harness error in selftest: {x.get('harness_error') or y.get('harness_error')}"
+        if x["digest"] != y["digest"] and x.get("lib_out") is not None and x.get("lib_out") != y.get("lib_out"):
+            # same scenario, same schedules, same interpreter settings - and the library returned
+            # different bytes: not a harness matter.  (C12 decides it in the batches below.)
+            return None, f"seed {x['seed']}: two executions of one scenario got different output from the library"
         if x["digest"] != y["digest"]:
             return False, f"non-deterministic run: seed {x['seed']} gave digests {x['digest']} and {y['digest']}"
     return True, f"{len(jobs)} seeds x 2 executions identical"
@@ -236,7 +240,8 @@ def run_check(prop, tier, verif_seed, runs_override=None):
     procs.template_init(with_pdks=any(w[0] == "pdk" for w in cfg["workloads"]))
     ok, msg = selftest(prop, cfg["workloads"], n=24 if tier == "quick" else 64, verif_seed=verif_seed)
     print(f"[{prop}] determinism self-test: {msg}", flush=True)
-    if not ok:
+    library_nondet = ok is None and prop == "C12"
+    if not ok and not library_nondet:
         print(f"HARNESS-ERROR property={prop} {msg}")
         return 2
     known = [k for k in load_known() if k["property"] == prop and k["status"] == "known"]
@@ -329,6 +334,9 @@ def run_check(prop, tier, verif_seed, runs_override=None):
         if rc == 0 and len(harness) > max(3, main.runs // 200):
             print(f"HARNESS-ERROR property={prop} too many harness errors")
             rc = 2
+    if rc == 0 and library_nondet:
+        print(f"HARNESS-ERROR property={prop} the self-test saw the library return different output for one scenario, and no batch confirmed it")
+        rc = 2
     if rc == 0 and main.runs == 0:
         print(f"HARNESS-ERROR property={prop} no runs completed")
         rc = 2
